@@ -2,6 +2,7 @@
 import ast
 
 from ..model import AnalysisError
+from ..lib import mapping_entries, value_members  # noqa: F401
 from ..lib import (FV, decode_new, decode_call, phi_members, is_sym, is_const, is_str, strip_stores, stores_of,
                    find_assign, find_assigns, simple_assigns, local_term)
 from ..lib import (reached_iff, reached_implies, implies_reached, reached_iff_any, path_term, cond_equiv, cond_implies,  # noqa: F401
@@ -252,35 +253,46 @@ def d3_names(chk, repo):
         chk.ob("field.Field._fftn::label-prefix", ok_f and ok_i and any(is_const(f.ctx, m_, None) for m_ in vd), "C11.D3",
                "labels get 'ft_' forward and lose exactly those three characters backward; None stays None", f.f, r)
         vm = x.get("vdim_mapping")
-        sts = stores_of(f.ctx, vm) if vm is not None else []
+        ents = mapping_entries(f.ctx, vm) if vm is not None else []
         okm_f = okm_i = False
-        key_ok = True
-        for idx, val in sts:
-            if f.eq(val, f.spec("f'k_{self.vdim_mapping[v]}'", env={"v": each(f, f.spec("self.vdims"))})):
-                okm_f = True
-            rule = _strip_rule(f, val)
-            if rule and rule[0] == "k_" and rule[2] == 2 and rule[3] == 0:
-                okm_i = True
+        comp_elem = f.spec("self.vdim_mapping[v]", env={"v": each(f, f.spec("self.vdims"))})
+        fwd_val = f.spec("f'k_{m}'", env={"m": comp_elem})
+        labels = [m_ for m_ in vd if not is_const(f.ctx, m_, None)]
+        okz = bool(ents)
+        for key, val, conds in ents:
+            for pol, leaf in _direction_leaves(f, val):
+                if f.eq(leaf, fwd_val):
+                    okm_f = True
+                rule = _strip_rule(f, leaf)
+                if rule and rule[0] == "k_" and rule[2] == 2 and rule[3] == 0 and f.eq(f.ctx.args_of(leaf)[2], comp_elem):
+                    okm_i = True
+            # keyed by the new label of the same component: the element of the new labels at the position of the old label
+            key_ok = False
+            for pol, kleaf in _direction_leaves(f, key):
+                hk = f.ctx.head_of(kleaf)
+                if hk and hk[0] == "iter" and hk[1] == () and labels and all(
+                        any(f.eq(y, m_) for m_ in labels) for y in phi_members(f.ctx, f.ctx.args_of(kleaf)[0])):
+                    key_ok = True
+                elif any((f.ctx.head_of(m_) or ("",))[0] == "seqcomp" and f.eq(f.ctx.args_of(m_)[0], kleaf) and
+                         f.eq(f.ctx.args_of(f.ctx.args_of(m_)[1])[0], f.spec("self.vdims")) for m_ in labels):
+                    key_ok = True
+                else:
+                    key_ok = False
+                    break
+            okz = okz and key_ok
         chk.ob("field.Field._fftn::mapping-prefix", okm_f and okm_i, "C11.D3",
                "mapping targets get 'k_' forward (the same prefix Mesh.fftn puts on the dims) and lose exactly it backward", f.f, r)
-    # new mapping keyed by the new label of the same component
-    okz = False
-    nv_name = None
-    for n_ in ast.walk(f.f.node):
-        if isinstance(n_, ast.Call):
-            for k_ in n_.keywords:
-                if k_.arg == "vdims" and isinstance(k_.value, ast.Name):
-                    nv_name = k_.value.id          # the variable handed to the constructor as the new labels
-    for st in f.stmts():
-        if nv_name and isinstance(st, ast.For) and f.eq(f.term(st.iter, at=st), f.spec("zip(self.vdims, N)", env={
-                "N": local_term(f, nv_name, st)})):
-            okz = True
-            for s2 in walk_stmts(st.body):
-                if isinstance(s2, ast.Assign) and isinstance(s2.targets[0], ast.Subscript):
-                    idx = f.ev._index(s2.targets[0].slice, f.cfg.node(s2), None)
-                    okz = okz and f.eq(idx, each(f, local_term(f, nv_name, st)))
-    chk.ob("field.Field._fftn::mapping-keys-follow-labels", okz, "C11.D3",
-           "the new mapping must be keyed by the NEW label of the same component (zip(old labels, new labels))", f.f)
+        chk.ob("field.Field._fftn::mapping-keys-follow-labels", okz, "C11.D3",
+               "the new mapping must be keyed by the NEW label of the same component (zip(old labels, new labels))", f.f, r)
+
+
+def _direction_leaves(f, t):
+    """[(polarity of `ifftn` or None, value)]: a value that is a conditional expression on the transform direction, split"""
+    h = f.ctx.head_of(t)
+    if h and h[0] == "ifexp" and f.eq(f.ctx.args_of(t)[0], f.spec("ifftn")):
+        _, a, b = f.ctx.args_of(t)
+        return [(True, x) for _, x in _direction_leaves(f, a)] + [(False, x) for _, x in _direction_leaves(f, b)]
+    return [(None, t)]
 
 
 def d3b_fftn_conditions(chk, repo):
@@ -305,6 +317,21 @@ def d3b_fftn_conditions(chk, repo):
             elif (f.ctx.head_of(t) or ("",))[0] == "seqcomp" and _strip_rule(f, f.ctx.args_of(t)[0]):
                 chk.ob("field.Field._fftn::prefix-stripped-iff-inverse", reached_iff(f, st, f.ev._bool("and", [has, inv])),
                        "C11.D3", f"'ft_' is stripped under {f.show(pt)}; expected: labelled field, inverse transform", f.f, st)
+            elif mapping_entries(f.ctx, t):
+                for key, val, conds in mapping_entries(f.ctx, t):
+                    member = f.spec("k in self.vdim_mapping", env={"k": each(f, f.spec("self.vdims"))})
+                    filt = f.ev._bool("and", list(conds)) if conds else f.ctx.mk(("const", True))
+                    for pol, leaf in _direction_leaves(f, val):
+                        is_inv = _strip_rule(f, leaf) is not None
+                        want_dir = inv if is_inv else f.ev._not(inv)
+                        if pol is None:
+                            ok = reached_iff(f, st, f.ev._bool("and", [has, want_dir]))
+                        else:
+                            ok = pol == is_inv and reached_iff(f, st, has)
+                        ok = ok and cond_equiv(f, filt, member)
+                        chk.ob(f"field.Field._fftn::mapping-entry-iff-mapped-{'inverse' if is_inv else 'forward'}", ok, "C11.D3",
+                               f"entry {f.show(leaf)[:70]} filtered by {f.show(filt)[:80]} under {f.show(pt)[:120]}; expected: labelled "
+                               f"field, the component has a mapping entry, {'inverse' if is_inv else 'forward'} transform", f.f, st)
         elif isinstance(st.targets[0], ast.Subscript):
             keys = []
             for aid in f.ctx.all_atoms(t) | ({t.single_atom()} if t.single_atom() is not None else set()):
